@@ -228,6 +228,21 @@ CLAIMED["C02"] = dict(
          "reported results (the controls that enforce it are C05's accepted-state argument), not a theorem.",
     technique="Coq proof (real analysis of the head-flow laws) + interval-certified differential on real constraint rows and reported results")
 
+CLAIMED["C11"] = dict(
+    text="Proof: a dictionary entry is a function of the attributes behind its keys; a simulation is a history of assignments to the "
+         "attributes in sim_writes and to the targets of control actions -- both REGENERATED from hydraulics.py, core.py, model.py and "
+         "controls.py on every run; if the write set is disjoint from the read set, no history of writes changes any read attribute "
+         "(frame theorem, any history); everything the simulation and the status/setting/leak_status actions write is re-initialised by "
+         "reset_initial_values (decided on the regenerated tables); a control action on base_speed provably writes the definition "
+         "(known finding). Cases decided inside coqc: for each element kind of generated models the attributes behind the keys of the "
+         "real to_dict are disjoint from sim_writes and the model's action targets. The statement on the implementation: to_dict "
+         "before == after WNTRSimulator and EpanetSimulator runs; run / reset / run and deepcopy runs reproduce all result tables.",
+    ref="DESIGN.md section 5 C11",
+    note="Trusted: Coq kernel (axiom-free); translator simwrites.py (syntactic: `obj.attr = ...` targets in the named functions and the "
+         "_InternalControlAction attribute strings); the reading convention key k -> attributes k, _k. Not proved: that reset restores the "
+         "INITIAL value of each attribute (covered by run/reset/run equality on generated models, incl. a valve with initial setting 0).",
+    technique="Coq proof (frame theorem over write histories; finite table checks on translator-regenerated write sets) + behavioural differential")
+
 NOT_YET = {
 }
 
